@@ -53,13 +53,30 @@ def scenario(ck, trial, tier):
             orphan_parent = None
             for step in range(nsteps):
                 cm = sn.lp().chain_manager
+                if bytes(cm.coinstate.current_chain_hash) not in byid:
+                    raise RuntimeError('head unknown to the harness after deliveries %r' % (deliveries[-4:],))
                 head = byid[bytes(cm.coinstate.current_chain_hash)]
                 r = rng.random()
                 label = None
                 blk = None
                 expect = None
                 known_ids = set(bytes(h) for h in cm.coinstate.block_by_hash.keys())
-                if r < 0.30:
+                irt = 0
+                rolled_back = [x for x in byid.values() if x.id not in known_ids and x.parent is not None and
+                               x.parent.id in known_ids and x in tg.nodes]
+                if trial % 2 == 1 and step < 3:
+                    # context: a bulk download is in progress -- valid blocks arrive as replies to the node's own requests,
+                    # are applied without in-state validation and wait in the write buffer
+                    r = 0.0
+                    irt = 77
+                elif rolled_back and rng.random() < 0.5:
+                    # blocks the node dropped again (roll-back of an unfinished bulk download) are delivered once more
+                    nn = min(rolled_back, key=lambda x: x.height)
+                    blk, label, expect = nn.block, 'valid-redelivered', 'accept'
+                    r = 2.0
+                if r == 2.0:
+                    pass
+                elif r < 0.30:
                     # valid block on the head, possibly mining a pending transaction
                     inc = [t for t in cm.transaction_pool if rng.random() < 0.4]
                     fees = 0
@@ -120,10 +137,14 @@ def scenario(ck, trial, tier):
                         break
                     sender = alive[0]
                 conn_before = [sn.connected(i) for i in range(len(sn.peers))]
-                sn.deliver(sender, M.DataMessage(M.DATA_BLOCK, blk))
+                pending_before = bool(before['buffer'])
+                deliveries.append((label, irt))
+                sn.deliver(sender, M.DataMessage(M.DATA_BLOCK, blk), irt=irt)
                 after = sn.observe()
                 msgs = sn.new_messages()
-                events.append([0, idm(bv.id), idm(bv.prev), bv.height, v[0], v[1], v[2], True])
+                events.append([0, idm(bv.id), idm(bv.prev), bv.height, v[0], v[1], v[2], irt == 0])
+                if irt != 0:
+                    label = 'bulk-download:' + label
                 cs_now = sn.lp().chain_manager.coinstate
                 for t in pool_txs:
                     if sn.tx_valid_at(t, cs_now):
@@ -140,7 +161,9 @@ def scenario(ck, trial, tier):
                 if entered and not fully_valid:
                     ck.violation('invalid-block-entered-state', 'a delivered block (%s) that does not pass full validation '
                                  'became part of the chain state' % label, rp)
-                if entered:
+                if entered and irt != 0:
+                    pass          # a reply during bulk download: applied, buffered, neither validated nor relayed (node model)
+                elif entered:
                     if bv.id not in after['rows'] or after['buffer']:
                         ck.violation('accepted-block-not-stored', 'an accepted block is not in the block store after the '
                                      'delivery (rows/buffer)', rp)
@@ -156,6 +179,10 @@ def scenario(ck, trial, tier):
                     if any(relays):
                         ck.violation('relay-of-unaccepted', 'a block that did not enter the state was relayed', rp)
                     changed = [k for k in ('blocks', 'head', 'pool', 'rows', 'buffer') if before[k] != after[k]]
+                    if pending_before:
+                        # unvalidated blocks of an unfinished bulk download were pending: a failed validation rolls the node
+                        # back to its last validated state (compared with the node model, not with this oracle)
+                        changed = [k for k in changed if k in ('rows',)]
                     if changed:
                         ck.violation('rejected-leaves-trace:' + ','.join(changed),
                                      'a delivery that was not accepted (%s) changed %s' % (label, ', '.join(changed)), rp)
@@ -169,7 +196,30 @@ def scenario(ck, trial, tier):
                     break
                 observed.append([sorted(idm(x) for x in after['blocks']), idm(after['head']), [idm(x) for x in after['pool']],
                                  [idm(x) for x in after['buffer']], sorted(idm(x) for x in after['rows'])])
-            # at the end: every block of the chain state has its row in the store (reading blocks back is C08's subject)
+            # at the end: one more valid relayed block on the head (completes any unfinished bulk download: validated,
+            # hence flushed); then every block of the chain state has its row in the store and the store can be read back
+            cm = sn.lp().chain_manager
+            head = byid.get(bytes(cm.coinstate.current_chain_hash))
+            if head is not None and not sn.node.escaped:
+                last = tg.extend(head, txs=[], fees=0, dt=120)
+                byid[last.id] = last
+                net.clock.t = max(net.clock.t, last.view.time + 1)
+                alive = [i for i in range(len(sn.peers)) if i not in torn and sn.connected(i)]
+                if alive:
+                    v = sn.block_verdicts(last.block)
+                    sn.deliver(alive[0], M.DataMessage(M.DATA_BLOCK, last.block))
+                    aft = sn.observe()
+                    sn.new_messages()
+                    events.append([0, idm(last.id), idm(last.view.prev), last.height, v[0], v[1], v[2], True])
+                    for t in pool_txs:
+                        if sn.tx_valid_at(t, sn.lp().chain_manager.coinstate):
+                            pairs_valid.add((idm(aft['head']), idm(spec.sha256d(t.serialize()))))
+                    observed.append([sorted(idm(x) for x in aft['blocks']), idm(aft['head']), [idm(x) for x in aft['pool']],
+                                     [idm(x) for x in aft['buffer']], sorted(idm(x) for x in aft['rows'])])
+                    if last.id not in aft['blocks'] or last.id not in aft['rows'] or aft['buffer']:
+                        ck.violation('later-block-not-stored', 'after the run a further valid relayed block on the head is %s'
+                                     % ('not accepted' if last.id not in aft['blocks'] else 'accepted but not stored (%d blocks '
+                                        'left in the write buffer)' % len(aft['buffer'])), {'trial': trial, 'final': True})
             sn.node.activate()
             fin = sn.observe()
             if not fin['blocks'] <= fin['rows'] | {main[0].id}:
@@ -177,6 +227,65 @@ def scenario(ck, trial, tier):
                              'the end of the run (%d missing)' % len(fin['blocks'] - fin['rows']), {'trial': trial})
         req = ('node_run', [], [10000, [list(p) for p in sorted(pairs_valid)], [], init_state, events])
         return req, observed
+
+
+def rollback_scenario(ck, trial, tier):
+    """scripted: replies of a bulk download wait unvalidated in the write buffer; a relayed block that passes the stand-alone
+    checks but fails in-state validation arrives (the node rolls back to its last validated state); the same good blocks are
+    delivered again, then one more: everything the chain state holds at the end is in the store, and a restarted node reads
+    the same chain back"""
+    import contextlib
+    import io
+    from skepticoin.networking import messages as M
+    from skepticoin import blockstore
+    rng = ck.rng
+    keys = chaingen.Keys()
+    with chaingen.Env(period=50) as env:
+        tg = chaingen.TreeGen(env, keys, rng)
+        n = tg.genesis
+        for _ in range(3):
+            n = tg.extend(n, txs=[], fees=0, dt=100)
+        main = list(tg.nodes)
+        with simnet.Net(seed=rng.getrandbits(30), t0=main[-1].view.time + 5000) as net:
+            sn = nodeharness.SingleNode(net, chaingen.impl_state_from(main), [m.block for m in main[1:]], npeers=2)
+            sn.new_messages()
+            xs = []
+            for _ in range(3):
+                n = tg.extend(n, txs=[], fees=0, dt=100)
+                xs.append(n)
+            for x in xs:                                   # replies to the node's own requests
+                sn.deliver(0, M.DataMessage(M.DATA_BLOCK, x.block), irt=55)
+            bad = [c for c in mutators.mutants(tg, xs[-1] if trial % 2 else main[-1], rng, tags=('C02',))
+                   if c['label'] == 'reward-plus-one']
+            if bad:
+                sn.deliver(1, M.DataMessage(M.DATA_BLOCK, bad[0]['block']))     # relayed, fails in-state validation
+            mid = sn.observe()
+            for x in xs:                                   # the good blocks again (relayed this time, or as replies)
+                sn.deliver(1, M.DataMessage(M.DATA_BLOCK, x.block), irt=0 if trial % 4 < 2 else 56)
+            last = tg.extend(xs[-1], txs=[], fees=0, dt=100)
+            sn.deliver(0, M.DataMessage(M.DATA_BLOCK, last.block))
+            fin = sn.observe()
+            rp = {'scripted': 'bulk-download replies, rejected relayed block, re-delivery, one more block', 'trial': trial,
+                  'blocks_after_rejection': len(mid['blocks'])}
+            ck.case(('rollback', trial), kind='bulk-download/rejected/redelivered',
+                    sample={'state_blocks': len(fin['blocks']), 'rows': len(fin['rows']), 'buffer': len(fin['buffer'])} if trial < 2 else None)
+            if sn.node.escaped:
+                ck.violation('exception-escaped', 'an exception escaped the event handler: %s' % sn.node.escaped[0][1], rp)
+            want = set(m.id for m in main) | set(x.id for x in xs) | {last.id}
+            if fin['blocks'] != want:
+                ck.violation('valid-block-not-accepted', 'after the re-delivery the chain state holds %d of the %d valid blocks'
+                             % (len(fin['blocks'] & want), len(want)), rp)
+            if not fin['blocks'] <= fin['rows'] | {main[0].id} or fin['buffer']:
+                ck.violation('state-block-missing-from-store', 'after a rejected block during a bulk download and the re-delivery '
+                             'of the good blocks, %d blocks of the chain state have no row in the block store (%d left in the '
+                             'write buffer)' % (len(fin['blocks'] - fin['rows'] - {main[0].id}), len(fin['buffer'])), rp)
+            else:
+                sn.node.activate()
+                with contextlib.redirect_stdout(io.StringIO()):
+                    back = set(spec.sha256d(b.header.serialize()) for b in sn.node.store.read_blocks_from_disk())
+                if back != fin['blocks']:
+                    ck.violation('store-does-not-return-what-was-written', 'the store reads back %d blocks, the chain state '
+                                 'holds %d' % (len(back), len(fin['blocks'])), rp)
 
 
 def run(tier, seed):
@@ -205,6 +314,23 @@ def run(tier, seed):
             continue
         reqs.append(req)
         obs.append(observed)
+    for tr_ in range(4 if tier == 'quick' else 12):
+        try:
+            rollback_scenario(ck, tr_, tier)
+        except Exception:
+            import traceback
+            tb = traceback.format_exc()
+            if 'could not mine a block' not in tb:
+                ck.disagree('rollback scenario crashed: %s' % tb[-400:], {})
+    # the store is shared by the network thread (flush) and the miner thread (buffering a found block): a block buffered
+    # while a flush is writing must still be stored
+    try:
+        import os
+        import check_C08
+        check_C08.thread_probe(ck, tier, ck.rng, chaingen.Keys(), os.getcwd())
+    except Exception:
+        import traceback
+        ck.disagree('store thread probe crashed: %s' % traceback.format_exc()[-400:], {})
     if r.ok and reqs:
         outs = model.run_batch(reqs)
         for k, (o, observed) in enumerate(zip(outs, obs)):
